@@ -647,12 +647,9 @@ class TaskPool:
                 # Re-prepare same submit.
                 itask.submit_num -= 1
 
-            # Running or finished task can have completed custom outputs.
-            if itask.state(
-                    TASK_STATUS_RUNNING,
-                    TASK_STATUS_FAILED,
-                    TASK_STATUS_SUCCEEDED
-            ):
+            # Any task can have completed outputs, e.g. a waiting task that
+            # is between automatic retries, or has had outputs set manually.
+            if outputs_str:
                 for message in json.loads(outputs_str):
                     itask.state.outputs.set_message_complete(message)
                     self.data_store_mgr.delta_task_output(itask, message)
